@@ -347,7 +347,9 @@ def run_shards(name, header, shard_bodies, timeout=900):
 
     def one(f):
         t0 = time.time()
-        rc, out = sh(['timeout', str(timeout), 'coqc', '-R', 'theories', 'LP', str(f.relative_to(COQ))],
+        # a long history is one long list literal: the parser recurses on it, so lift the stack limit
+        rc, out = sh(['sh', '-c', 'ulimit -s unlimited 2>/dev/null || ulimit -s 4000000 2>/dev/null; exec "$@"', 'sh',
+                      'timeout', str(timeout), 'coqc', '-R', 'theories', 'LP', str(f.relative_to(COQ))],
                      cwd=COQ, timeout=timeout + 10)
         for ext in ('.vo', '.vok', '.vos', '.glob'):
             with contextlib.suppress(FileNotFoundError):
